@@ -816,6 +816,6 @@ MANIFEST = dict(
     level_note="Trusted: python ast; torch rank semantics of the closed transformer set in rules/rank.py. F11 (gather on "
                "a rank-1 column), F21 (the 'ali' policy raised whenever a sequence fills the time axis) and F24 (an extra 'fixed' symmetric window when in_lens is omitted) were found and repaired; F5 (boundaries shifted by "
                "+ slice start) is a known finding because tests/test_feats.py encodes the same arithmetic.",
-    technique="static analysis: known-rank abstract interpretation, kind checking of positions/boundaries, partial evaluation + min/max-linear term comparison with the documented rule, comparison normal forms, literal-table agreement",
+    technique="static analysis: known-rank abstract interpretation, kind checking of positions/boundaries, partial evaluation + min/max-linear term comparison with the documented rule, comparison normal forms, literal-table agreement, decision tables for the chunk worker (pad mode, policy)",
     design_ref="DESIGN.md section 4 C10, section 3 G19/G14",
 )
